@@ -61,9 +61,11 @@ theorem regressor_jacobian_chain_rule (tin tout : List (Step ℝ)) (d k m dout :
         = pipeInverse tout (G t) i :=
       pipeInverse_congr tout dout hout _ _
         (fun l hl => hg.1 _ _ (fun j hj => hT t j hj) l (by rw [← hm]; exact hl)) i hi
-    rw [h1]
-    have h2 : G t = fun l => G 0 l + (G t l - G 0 l) := by funext l; ring
-    rw [h2, pipeInverse_increment tout dout hout (G 0) (fun l => G t l - G 0 l) i hi, hm]
+    have h3 : pipeInverse tout (G t) i
+        = pipeInverse tout (fun l => G 0 l + (G t l - G 0 l)) i := by
+      congr 1
+      funext l; ring
+    rw [h1, h3, pipeInverse_increment tout dout hout (G 0) (fun l => G t l - G 0 l) i hi, hm]
     rfl
   have hfun : (fun t : ℝ => regPredict tin tout g (fun j => x j + t * v j) i)
       = fun t => pipeInverse tout (G 0) i
@@ -74,16 +76,15 @@ theorem regressor_jacobian_chain_rule (tin tout : List (Step ℝ)) (d k m dout :
     hasDerivAt_sumTo m _ _ 0 (fun l hl =>
       ((hg.2 z w l hl).sub_const (G 0 l)).const_mul (pipeJacInv tout i l))
   have hd := hsum.const_add (pipeInverse tout (G 0) i)
-  convert hd using 1
   -- the accumulated matrix product is this sum
-  unfold regJac
-  rw [mulVec_matMul, ← hz]
-  unfold mulVec
-  exact sumTo_congr (fun l _ => by
-    congr 1
-    have := mulVec_matMul d k (Jg z) (pipeJac tin) v l
-    unfold mulVec at this
-    exact this)
+  have hval : mulVec d (regJac tin tout k m Jg x) v i
+      = sumTo m (fun l => pipeJacInv tout i l * mulVec k (Jg z) w l) := by
+    unfold regJac
+    rw [mulVec_matMul, ← hz]
+    show sumTo m (fun l => pipeJacInv tout i l * mulVec d (matMul k (Jg z) (pipeJac tin)) v l) = _
+    exact sumTo_congr (fun l _ => by rw [mulVec_matMul])
+  rw [hval]
+  exact hd
 
 /-- **Linear regression**: the coefficient matrix is the exact Jacobian. -/
 theorem linreg_jac (k m : ℕ) (W : Mat ℝ) (b : Vec ℝ) : HasJac k m (linPredict k W b) (linJac W) := by
